@@ -65,7 +65,8 @@ func main() {
 			fmt.Fprintf(os.Stderr, "Unexpected error: %v\n", err)
 			os.Exit(1)
 		}
-		if fi.Size() == 0 {
+		// the reported size is only meaningful for regular files, it is always 0 for a pipe
+		if fi.Mode()&os.ModeNamedPipe == 0 && fi.Size() == 0 {
 			fmt.Fprintln(os.Stderr, "No data provided on stdin.  Use '-file' or pass data on stdin.")
 			os.Exit(1)
 		}
